@@ -36,6 +36,12 @@ Theorem C20_right : forall s k, not_code s -> 0 <= k ->
 Proof. exact right_last. Qed.
 Print Assumptions C20_right.
 
+(* a fractional count below 1 gives the empty text *)
+Theorem C20_right_fraction : forall s q, not_code s -> (0 <= q)%Q -> (q < 1)%Q ->
+  X_right [VStr s; VFloat q] = Ok (VStr []).
+Proof. exact right_fraction. Qed.
+Print Assumptions C20_right_fraction.
+
 (* REPLACE(s,n,k,t) = LEFT(s,n-1) & t & MID(s,n+k,LEN(s)) *)
 Theorem C20_replace : forall s n k t, not_code s -> not_code t -> 1 <= n -> 0 <= k ->
   exists a b l, X_left [VStr s; VInt (n - 1)] = Ok (VStr a)
@@ -63,18 +69,24 @@ Theorem C20_number_rendering : forall X z rest, slicing X ->
 Proof. exact number_rendering. Qed.
 Print Assumptions C20_number_rendering.
 
-(* FIND(f, w, start), start >= 1: the least position p >= start with
-   MID(w,p,LEN f) = f, else #VALUE!.  Partial: for start < 1 the full statement
-   (#VALUE!) is refuted — Refuted/C20_find_start.v (FIND("c","abc",0) = 3), and
-   a fractional start raises TypeError. *)
-Theorem C20_find_partial : forall f w st, not_code f -> not_code w -> 1 <= st ->
-  (X_find [VStr f; VStr w; VInt st] = Ok VERR
-   /\ forall q, st <= q -> q - 1 + zlen f <= zlen w -> ~ occurs_at f w q)
-  \/ (exists p, X_find [VStr f; VStr w; VInt st] = Ok (VInt p)
-      /\ st <= p /\ p - 1 + zlen f <= zlen w /\ occurs_at f w p
-      /\ forall q, st <= q < p -> ~ occurs_at f w q).
+(* FIND(f, w, start), every integer start: #VALUE! below 1; otherwise the least
+   position p >= start with MID(w,p,LEN f) = f, else #VALUE!.  A fractional
+   start behaves as its truncation. *)
+Theorem C20_find : forall f w st, not_code f -> not_code w ->
+  (st < 1 -> X_find [VStr f; VStr w; VInt st] = Ok VERR)
+  /\ (1 <= st ->
+      (X_find [VStr f; VStr w; VInt st] = Ok VERR
+       /\ forall q, st <= q -> q - 1 + zlen f <= zlen w -> ~ occurs_at f w q)
+      \/ (exists p, X_find [VStr f; VStr w; VInt st] = Ok (VInt p)
+          /\ st <= p /\ p - 1 + zlen f <= zlen w /\ occurs_at f w p
+          /\ forall q, st <= q < p -> ~ occurs_at f w q)).
 Proof. exact find_first. Qed.
-Print Assumptions C20_find_partial.
+Print Assumptions C20_find.
+
+Theorem C20_find_fraction : forall f w q, not_code f -> not_code w ->
+  X_find [VStr f; VStr w; VFloat q] = X_find [VStr f; VStr w; VInt (q_trunc q)].
+Proof. exact find_fraction. Qed.
+Print Assumptions C20_find_fraction.
 
 Theorem C20_find_default : forall f w, not_code f -> not_code w ->
   X_find [VStr f; VStr w] = X_find [VStr f; VStr w; VInt 1].
@@ -135,14 +147,15 @@ Theorem C20_exact : forall a b, not_code a -> not_code b ->
 Proof. exact exact_spec. Qed.
 Print Assumptions C20_exact.
 
-(* TRIM: no two adjacent spaces, the other characters untouched, idempotent.
-   Partial: "no space at the ends" is refuted — Refuted/C20_trim_ends.v *)
-Theorem C20_trim_partial : forall s, not_code s ->
+(* TRIM: single inner spaces, no space at either end, the other characters
+   untouched and in order, idempotent *)
+Theorem C20_trim : forall s, not_code s ->
   exists t, X_trim [VStr s] = Ok (VStr t) /\ no_adjacent_spaces t
-            /\ filter (fun c => negb (c =? 32)) t = filter (fun c => negb (c =? 32)) s
+            /\ hd 0 t <> 32 /\ last t 0 <> 32
+            /\ nonspaces t = nonspaces s
             /\ X_trim [VStr t] = Ok (VStr t).
-Proof. exact trim_partial. Qed.
-Print Assumptions C20_trim_partial.
+Proof. exact trim_full. Qed.
+Print Assumptions C20_trim.
 
 (* UPPER / LOWER are idempotent wherever the case mapping is modelled (ASCII,
    Latin-1, CJK, pictographs), and total on ASCII *)
